@@ -27,8 +27,13 @@ META = {
         'can stop only right after a byte that passed an alphanumeric class test - an advance over a byte only known to be `.`, `-` or `_` must be '
         'followed by one that is, or the last byte is checked before Ok; (R13.6) nothing parsed is silently dropped: for '
         'every accumulator (a Vec that receives push in a parser), on every feasible Ok path on which it was pushed to '
-        '(flag variables followed by constant propagation) it is moved into the returned tree. Not decided: that the accepted '
-        'language is exactly the Varlink grammar and the tree the denoted one (language equivalence).'),
+        '(flag variables followed by constant propagation) it is moved into the returned tree; (R13.7) the three name scanners '
+        '(interface_name, type_name, field_name) accept exactly the lexical rules of the grammar: their MIR (with the helpers, closures and '
+        'slice-iterator adaptors they use) is interpreted over an unknown input - a byte-class set per position refined at every test, an '
+        'interval for the length, positions relative to the furthest cursor so that loops close - in lock-step with the DFA of the rule\'s '
+        'regular expression; every Ok return must be in the language and consume exactly the returned name, no Err and no shorter Ok may be '
+        'reachable with an input whose name is legal, and no bounds / overflow assertion may be reachable failing. Not decided: that the '
+        'phrase-level language (members, types, comments) is exactly the Varlink grammar and the tree the denoted one.'),
     'assumptions': ['winnow literal / alt / separated rewind the input on a failed alternative as documented, except after the last alternative (handled by R13.2)',
                     'usize arithmetic on buffer offsets does not overflow (offsets are bounded by the slice length)'],
 }
@@ -44,6 +49,21 @@ def parser_bodies(crate):
     return [b for b in crate.bodies if b.path.startswith(MOD) and not b.in_test and '::tests' not in b.path]
 
 
+def panic_free_scanner_bodies(crate):
+    """bodies (scanner + everything it inlines) whose bounds assertions the scanner interpretation (R13.7) evaluated on every feasible
+    path without finding a reachable failure"""
+    out = set()
+    for path in SCANNERS:
+        r = _scan(crate, path)
+        if r is None:
+            continue
+        sc, outs, err = r
+        if err is None and not sc.stopped_early and not any(o.kind == 'panic' for o in outs):
+            out.add(path)
+            out.update(sc.inlined)
+    return out
+
+
 def check_bounds(rep, crate, cfg):
     n_sites = 0
     for body in parser_bodies(crate):
@@ -57,6 +77,8 @@ def check_bounds(rep, crate, cfg):
             ord_ += 1
             key, sid = B.key_of(t['index']), B.len_of(t['len'])
             ok, det = (False, {}) if (key is None or sid is None) else B.proves(blk, key, sid)
+            if not ok and fk in panic_free_scanner_bodies(crate):
+                ok, det = True, {'guard_line': 'abstract interpretation of the scanner: no assertion failure is reachable'}
             rep.check(ok, 'R13.1', '%s|index|%d|%s' % (fk, ord_, cfg), C.where(body, blk),
                       'index %s is guarded (line %s)' % (op_str(t['index']), det.get('guard_line')),
                       'the index `%s` of this slice access is not covered by a dominating `< len()` / is_empty() / starts_with guard: out-of-bounds panic on '
@@ -101,6 +123,8 @@ def check_bounds(rep, crate, cfg):
                 ka, kb = B.key_of(ops[0]), B.key_of(ops[1])
                 if ka and kb and ka[0] == 'const' and ka[1] != 0 and kb[0] == 'local':
                     bad.append('start %s may exceed end `%s`' % (ka[1], body.local_name(kb[1]) or kb[1]))
+            if bad and fk in panic_free_scanner_bodies(crate):
+                bad = []       # every feasible path through this slice expression was interpreted (R13.7): no reachable out-of-range
             rep.check(not bad, 'R13.1', '%s|range|%d|%s' % (fk, ord_, cfg), C.where(body, blk), 'range slice %s bounds are covered' % adt,
                       'range slice can panic on untrusted input: %s' % '; '.join(bad))
         for blk, t in body.iter_terms('call'):
@@ -473,7 +497,94 @@ def check_name_endings(rep, crate, cfg):
         rep.bad('R13.5', 'floor|%s' % cfg, '-', 'expected cursor advances in the name scanners (field_name, type_name, interface_name), found %d' % n)
 
 
+# The Varlink grammar's lexical rules (https://varlink.org/Interface-Definition), as regular expressions over bytes.
+SCANNERS = {
+    'idl::parse::interface_name': (r'[A-Za-z](-*[A-Za-z0-9])*(\.[A-Za-z0-9](-*[A-Za-z0-9])*)+', 'interface_name'),
+    'idl::parse::type_name': (r'[A-Z][A-Za-z0-9]*', 'name (types, methods, errors)'),
+    'idl::parse::field_name': (r'[A-Za-z](_?[A-Za-z0-9])*', 'field_name'),
+}
+# bytes that can follow a name in a legal text: white space and the grammar's punctuation
+FOLLOW = frozenset(b' \t\r\n():,#?[]->')
+BAD_KINDS = {
+    'unsound': 'accepts a name outside the grammar',
+    'incomplete': 'rejects a legal name',
+    'cut': 'cuts a legal name short',
+    'consume': 'consumes a different number of bytes than the name it returns',
+    'bad-start': 'returns a name that does not start at the cursor',
+    'panic': 'can panic',
+}
+
+
+def scanner_candidates(crate):
+    out = []
+    for b in parser_bodies(crate):
+        if b.d.get('kind') != 'Fn' or not re.match(r'(std|core)::result::Result<&str', b.d.get('ret_ty') or ''):
+            continue
+        locs = b.d['locals']
+        if b.d.get('arg_count') == 1 and len(locs) > 1 and locs[1]['ty'] == '&mut &[u8]':
+            out.append(b)
+    return out
+
+
+_SCAN_CACHE = {}
+
+
+def _scan(crate, path):
+    import scanner as SC
+    ck = (id(crate), path)
+    if ck not in _SCAN_CACHE:
+        body = {b.path: b for b in scanner_candidates(crate)}.get(path)
+        if body is None:
+            _SCAN_CACHE[ck] = None
+        else:
+            try:
+                sc, outs = SC.analyse(crate, body, SCANNERS[path][0], follow=FOLLOW)
+                _SCAN_CACHE[ck] = (sc, outs, None)
+            except SC.Unsupported as e:
+                _SCAN_CACHE[ck] = (None, [], str(e))
+    return _SCAN_CACHE[ck]
+
+
+def check_scanners(rep, crate, cfg, rule='R13.7', prefix=''):
+    """abstract interpretation of the name scanners against the grammar's regular expressions (rules/scanner.py)"""
+    import scanner as SC
+    cands = {b.path: b for b in scanner_candidates(crate)}
+    for path in sorted(set(cands) - set(SCANNERS)):
+        rep.bad(rule, '%s%s|no-reference-language|%s' % (prefix, path, cfg), cands[path].where(),
+                'byte scanner %s returns a name but has no entry in the table of lexical rules: its language is unchecked' % path)
+    n = 0
+    for path, (regex, what) in SCANNERS.items():
+        body = cands.get(path)
+        if body is None:
+            rep.bad(rule, '%s%s|anchor|%s' % (prefix, path, cfg), '-', 'scanner %s (fn(&mut &[u8]) -> Result<&str, _>) not found' % path)
+            continue
+        sc, outs, err = _scan(crate, path)
+        if err is not None:
+            rep.bad(rule, '%s%s|not-modelled|%s' % (prefix, path, cfg), body.where(),
+                    'the scanner uses a construct the abstract interpretation does not model (%s): its accepted language cannot be compared with /%s/' % (err, regex))
+            continue
+        n += 1
+        kinds = {}
+        for o in outs:
+            kinds.setdefault(o.kind, []).append(o)
+        detail = {'regex': regex, 'abstract_states': sc.n_states, 'merged': sc.n_merged, 'forks': sc.n_forks, 'inlined': sorted(sc.inlined),
+                  'returns': {k: len(v) for k, v in sorted(kinds.items())}, 'stopped_after_enough_counterexamples': sc.stopped_early}
+        for kind, why in BAD_KINDS.items():
+            hits = kinds.get(kind, [])
+            shortest = min(hits, key=lambda o: len(o.detail)) if hits else None
+            rep.check(not hits, rule, '%s%s|%s|%s' % (prefix, path, kind, cfg), body.where(),
+                      '%s never %s (%d abstract states, %d returns examined against /%s/)' % (path.split('::')[-1], why, sc.n_states, len(outs), regex),
+                      '%s %s: %s  [%d such paths]' % (path.split('::')[-1], why, shortest.detail if shortest else '', len(hits)), detail=detail)
+        rep.check(bool(kinds.get('ok')) and bool(kinds.get('err')), rule, '%s%s|both-verdicts|%s' % (prefix, path, cfg), body.where(),
+                  'the exploration reaches Ok and Err returns', 'the exploration does not reach both an Ok and an Err return: vacuous')
+    return n
+
+
 def check(fx, rep, tier):
+    rep.rule('R13.7', 'the name scanners accept exactly the grammar\'s lexical rules: abstract interpretation of the scanner MIR over an unknown input '
+             '(byte-class knowledge per position, window-relative positions) in lock-step with the DFA of the rule; every Ok return is in the '
+             'language and consumes exactly the name, no Err / shorter Ok is possible for an input whose name is legal, no assertion can fail')
+    rep.rule('R13.8', 'a line comment is confined to its line (rule R14.7 of C14): otherwise an empty `#` line swallows the following member, which then is missing from the tree')
     rep.rule('R13.5', 'name scanners can stop only right after a byte that passed an alphanumeric class test, or check the last byte before returning Ok')
     rep.rule('R13.1', 'every index / range slice / unwrap in idl::parse is discharged: dominating len / is_empty / starts_with guards, inductive cursors, frozen unwrap table; no str byte-slicing')
     rep.rule('R13.2', 'no parse error is dropped with the input advanced: unpropagated results are probes / infallible or restore a checkpoint on every Err path')
@@ -481,6 +592,7 @@ def check(fx, rep, tier):
     rep.rule('R13.4', 'the entry function returns Ok only when no input remains')
     rep.rule('R13.6', 'every accumulator that received parsed elements is moved into the result on every feasible Ok path')
     cfgs = ['full'] + (['nostd'] if tier == 'thorough' else [])
+    nsc = 0
     for cfg in cfgs:
         crate = fx.crate('zlink_core', cfg)
         if not parser_bodies(crate):
@@ -492,4 +604,9 @@ def check(fx, rep, tier):
         check_entry(rep, crate, cfg)
         check_conservation(rep, crate, cfg)
         check_name_endings(rep, crate, cfg)
+        nsc += check_scanners(rep, crate, cfg)
+        if cfg == 'full':
+            import c14
+            c14.check_comment_confined(rep, crate, 'R13.8')
+    rep.floor('R13.7', 21, 'scanner verdict instances (3 scanners x 7)')
     return META
